@@ -555,18 +555,67 @@ def rule_global_init(cx, rid):
                    marks=lambda s: {"DEFAULTED"} if isinstance(s, ast.Assign) and isinstance(s.targets[0], ast.Name) and s.targets[0].id == "init_expr" and "_default_value_for_type" in norm(s.value) else set())
     tr.run_function(ha, frozenset({frozenset()}))
     hits = 0
+    import itertools as _it
+
+    def feasible(cs, env):
+        """can this path be taken under the given truth values?  conditions over other names are left open"""
+        for text, truth in cs:
+            try:
+                node = ast.parse(text, mode="eval").body
+            except SyntaxError:
+                continue
+            names = {n_.id for n_ in ast.walk(node) if isinstance(n_, ast.Name)}
+            if not names or not names <= set(env):
+                continue
+            if any(not isinstance(n_, (ast.Name, ast.BoolOp, ast.UnaryOp, ast.And, ast.Or, ast.Not, ast.Load, ast.Expression)) for n_ in ast.walk(node)):
+                continue
+            if bool(eval(compile(ast.Expression(node), "<cond>", "eval"), {"__builtins__": {}}, dict(env))) != truth:
+                return False
+        return True
+
     for st, state in tr.hits:
         for alt in state:
             cs = conds(alt)
-            if ("is_global_scope", True) not in cs:
+            if not feasible(cs, {"is_global_scope": True}):
+                continue
+            if not any("is_global_scope" in t for t, _v in cs):
                 continue
             hits += 1
             if "DEFAULTED" in alt:
                 r.ok("global declared with the default, assigned at run time")
                 continue
-            okb = ("is_const", True) in cs and ("expr_uses_names", False) in cs
-            r.check(okb, "_handle_assignment_ast/global-baked-only-if-const-and-name-free", (pm, st), f"a global's initialiser is baked under {sorted(t for t in cs if t[0] in ('is_const', 'expr_uses_names', 'not is_const', 'not is_const or expr_uses_names'))}: an initialiser that mentions other names would be evaluated at static-init time with stale values")
-    r.check(hits >= 2, "_handle_assignment_ast/global-decl-paths", (pm, ha), "global declaration paths not found")
+            bad_combos = [(c_, u_) for c_, u_ in _it.product((True, False), repeat=2) if (c_, u_) != (True, False) and feasible(cs, {"is_global_scope": True, "is_const": c_, "expr_uses_names": u_})]
+            r.check(not bad_combos, "_handle_assignment_ast/global-baked-only-if-const-and-name-free", (pm, st), f"a global's initialiser is baked on a path that is open for (is_const, expr_uses_names) in {bad_combos}: an initialiser that is not constant, or that mentions other names, would be evaluated at static-init time with stale values instead of at its source position")
+    # the same decision, evaluated: the block that declares a new name is run (checker's interpreter, fabricated IR classes)
+    # for every combination of (is_const, expr_uses_names) at global scope; however the decision is written, the
+    # initialiser is baked iff the value is constant AND name-free, and otherwise the value is assigned where the statement stands
+    from .. import dl as dl_, pe as pe_
+    decl_blocks = [n for n in walk_local(ha) if isinstance(n, ast.If) and norm(n.test) == "target.id not in declared" and any(isinstance(x, ast.Call) and call_name(x) == "VarDecl" for x in ast.walk(n))]
+    evaluated = 0
+    if len(decl_blocks) == 1:
+        T = type("Tgt", (dl_.Synth,), {})
+        for c_, u_ in _it.product((True, False), repeat=2):
+            tgt_ = T()
+            tgt_.id = "x"
+            env = dl_.Env(None)
+            glist, nlist = [], []
+            for k_, v_ in (("target", tgt_), ("declared", set()), ("inferred_type", "int"), ("expr_c", "EXPR"), ("is_const", c_), ("expr_uses_names", u_), ("is_global_scope", True),
+                           ("assign_as_expr_stmt", False), ("assign_expr", "EXPR"), ("globals_list", glist), ("nodes", nlist), ("helpers", set()), ("value_obj", 1), ("vars_env", {}), ("var_types", {})):
+                dict.__setitem__(env, k_, v_)
+            it_ = dl_.Interp(pm, extra_env=pe_.ir_env())
+            try:
+                it_._block(decl_blocks[0].body, env)
+            except (dl_.Unsupported, dl_.Raised):
+                evaluated = -100
+                break
+            evaluated += 1
+            baked = [d for d in glist if getattr(d, "expr", None) == "EXPR"]
+            assigned = [x for x in nlist if type(x).__name__ in ("VarAssign", "ExprStmt") and getattr(x, "expr", None) == "EXPR"]
+            want_baked = c_ and not u_
+            okd = (bool(baked) == want_baked) and (want_baked or bool(assigned)) and len(glist) == 1
+            r.check(okd, f"_handle_assignment_ast/global-decision[is_const={c_},uses_names={u_}]", (pm, decl_blocks[0]), f"new global with is_const={c_}, expr_uses_names={u_}: declaration initialiser {[getattr(d, 'expr', None) for d in glist]}, run-time assignments {[getattr(x, 'expr', None) for x in nlist]}; expected {'the value baked into the declaration' if want_baked else 'the default in the declaration and the value assigned at the source position'}")
+    cx.extra["global_decision_evaluated"] = evaluated
+    r.check(hits >= 2 or evaluated == 4, "_handle_assignment_ast/global-decl-paths", (pm, ha), "global declaration paths not found")
     loc = Locals(ha)
     eun = loc.defs.get("expr_uses_names", [])
     r.check(len(eun) == 1 and norm(eun[0]) == "_expr_has_name(value)", "_handle_assignment_ast/expr_uses_names=_expr_has_name(value)", (pm, ha), "expr_uses_names must be _expr_has_name(value)")
